@@ -220,45 +220,53 @@ def run_check(pid, tier, seed, only, jobs, write_evidence=True):
         agg[n]["stats"] = Stats()
 
     ctx = mp.get_context("fork")
-    pool = ctx.Pool(processes=max(1, jobs), maxtasksperchild=50)
-    pending = []
-    order = list(names)
-    rnd.shuffle(order)  # VERIF_SEED only permutes scheduling
-    for n in order:
-        ob = obs[n]
-        pending.append(pool.apply_async(run_task, ((pid, tier, n, None, ob.split, qtimeout, deadline),)))
+    pool = ctx.Pool(processes=max(1, jobs), maxtasksperchild=2000)
     harness_errors = []
-    while pending:
-        nxt = []
-        progressed = False
-        for r in pending:
-            if not r.ready():
-                nxt.append(r)
-                continue
-            progressed = True
-            res = r.get()
-            g = agg[res["ob"]]
-            g["tasks"] += 1
-            g["wall_s"] += res["wall_s"]
-            if res["error"]:
-                g["errors"].append(res["error"])
-                continue
-            g["stats"].add(res["stats"])
-            g["violations"].extend(res["violations"])
-            g["inconclusive"].extend(res["inconclusive"][:10])
-            g["n_inc"] += res["n_inconclusive"]
-            g["n_inc_req"] += res["n_inconclusive_required"]
-            if len(g["samples"]) < 4:
-                g["samples"].extend(res["samples"][:2])
-            g["exhausted"] = g["exhausted"] and res["exhausted"]
-            g["assumptions"].update(res["assumptions"])
-            fr = res["frontiers"]
-            rnd.shuffle(fr)
-            for pre in fr:
-                nxt.append(pool.apply_async(run_task, ((pid, tier, res["ob"], pre, None, qtimeout, deadline),)))
-        pending = nxt
-        if not progressed:
-            time.sleep(0.05)
+
+    def drain(order):
+        pending = []
+        for n in order:
+            ob = obs[n]
+            pending.append(pool.apply_async(run_task, ((pid, tier, n, None, ob.split, qtimeout, deadline),)))
+        while pending:
+            nxt = []
+            progressed = False
+            for r in pending:
+                if not r.ready():
+                    nxt.append(r)
+                    continue
+                progressed = True
+                res = r.get()
+                g = agg[res["ob"]]
+                g["tasks"] += 1
+                g["wall_s"] += res["wall_s"]
+                if res["error"]:
+                    g["errors"].append(res["error"])
+                    continue
+                g["stats"].add(res["stats"])
+                g["violations"].extend(res["violations"])
+                g["inconclusive"].extend(res["inconclusive"][:10])
+                g["n_inc"] += res["n_inconclusive"]
+                g["n_inc_req"] += res["n_inconclusive_required"]
+                if len(g["samples"]) < 4:
+                    g["samples"].extend(res["samples"][:2])
+                g["exhausted"] = g["exhausted"] and res["exhausted"]
+                g["assumptions"].update(res["assumptions"])
+                fr = res["frontiers"]
+                rnd.shuffle(fr)
+                for pre in fr:
+                    nxt.append(pool.apply_async(run_task, ((pid, tier, res["ob"], pre, None, qtimeout, deadline),)))
+            pending = nxt
+            if not progressed:
+                time.sleep(0.05)
+
+    # required obligations first; depth obligations get what is left of the wall budget
+    req = [n for n in names if obs[n].required]
+    dep = [n for n in names if not obs[n].required]
+    rnd.shuffle(req)  # VERIF_SEED only permutes scheduling
+    rnd.shuffle(dep)
+    drain(req)
+    drain(dep)
     pool.close()
     pool.join()
 
